@@ -92,16 +92,19 @@ def rg_part(chk, tier, recs):
             sc.write(d + "e/clean", b"x\nxx\n")
             for naming in ("implicit", "explicit", "mixed"):
                 for mode, fl in (("default", []), ("binary", ["--binary"]), ("text", ["--text"])):
-                    for strat in ("--mmap", "--no-mmap", "--mmap-U"):
+                    for strat in ("--mmap", "--no-mmap", "--mmap-U", "--pre"):
                         for ctx in ([], ["-C1"], ["-c"], ["-l"], ["--files-without-match"], ["-c", "--include-zero"],
                                     ["--count-matches", "--include-zero"]):
                             if ctx and mode == "text":
+                                continue
+                            if strat == "--pre" and (naming == "mixed" or k % 2 or ctx not in ([], ["-C1"], ["-c"])):
                                 continue
                             if strat == "--mmap-U" and (ctx or len(b) > 60000 or naming == "mixed"):
                                 continue
                             if ctx and ctx != ["-C1"] and (naming == "mixed" or k % 3):
                                 continue
-                            args = ["--no-config", "--color", "never", "-j1", "-n", "-I", "--no-heading", strat] + fl + ctx + ["-e", "m"]
+                            # ("--pre": the file reaches the searcher through a preprocessor that hands it through unchanged)
+                            args = ["--no-config", "--color", "never", "-j1", "-n", "-I", "--no-heading"] + ([strat] if strat != "--pre" else ["--pre", "cat"]) + fl + ctx + ["-e", "m"]
                             if strat == "--mmap-U":
                                 # multi-line strategy: a pattern that selects the same lines but can match the terminator
                                 args = ["--no-config", "--color", "never", "-j1", "-n", "-I", "--no-heading", "--mmap", "-U"] + fl + ctx + ["-e", "m[^\\n]*\\n?"]
